@@ -119,12 +119,13 @@ package lexer
 //@   ensures position == ignoredEnd(body, startPosition)
 //@   ensures position >= startPosition
 //@   ensures position <= len(body) || position == startPosition
+//@   ensures runePosition >= startPosition
 //@   ensures (forall i in startPosition..position: body[i] < 128) ==> runePosition == position
-//@   loop 1 invariant bodyLength == len(body) && startPosition <= position && (position <= len(body) || position == startPosition)
+//@   loop 1 invariant bodyLength == len(body) && startPosition <= position && (position <= len(body) || position == startPosition) && startPosition <= runePosition
 //@   loop 1 invariant ignoredEnd(body, position) == ignoredEnd(body, startPosition)
 //@   loop 1 invariant (forall i in startPosition..position: body[i] < 128) ==> runePosition == position
 //@   loop 1 decreases len(body) - position
-//@   loop 2 invariant bodyLength == len(body) && startPosition < position && position <= len(body) && atloop(1, position) < position
+//@   loop 2 invariant bodyLength == len(body) && startPosition < position && position <= len(body) && atloop(1, position) < position && startPosition <= runePosition
 //@   loop 2 invariant ignoredEnd(body, commentEnd(body, position)) == ignoredEnd(body, startPosition)
 //@   loop 2 invariant (forall i in startPosition..position: body[i] < 128) ==> runePosition == position
 //@   loop 2 decreases len(body) - position
@@ -214,7 +215,8 @@ package lexer
 //@   nopanic
 //@   ensures strScan(s.Body, start+1) >= 0 ==> result1 == nil && result0.Kind == STRING && result0.Start == start && result0.End == strScan(s.Body, start+1) + 1
 //@   ensures strScan(s.Body, start+1) < 0 ==> result1 != nil
-//@   loop 1 invariant body == s.Body && start < chunkStart && chunkStart <= position && position <= len(body)
+//@   at call NewSyntaxError: assert arg1 == position
+//@   loop 1 invariant body == s.Body && start < chunkStart && chunkStart <= position && position <= len(body) && start < runePosition
 //@   loop 1 invariant strScan(body, position) == strScan(body, start+1)
 //@   loop 1 invariant (forall i in start+1..position: body[i] < 128) ==> runePosition == position
 //@   loop 1 decreases len(body) - position
@@ -227,6 +229,55 @@ package lexer
 //@   nopanic
 //@   ensures blockScan(s.Body, start+3) >= 0 ==> result1 == nil && result0.Kind == BLOCK_STRING && result0.Start == start && result0.End == blockScan(s.Body, start+3) + 3
 //@   ensures blockScan(s.Body, start+3) < 0 ==> result1 != nil
-//@   loop 1 invariant body == s.Body && start + 3 <= chunkStart && chunkStart <= position && position <= len(body)
+//@   at call NewSyntaxError: assert arg1 == position
+//@   loop 1 invariant body == s.Body && start + 3 <= chunkStart && chunkStart <= position && position <= len(body) && start + 3 <= runePosition
 //@   loop 1 invariant blockScan(body, position) == blockScan(body, start+3)
+//@   loop 1 invariant (forall i in start+3..position: body[i] < 128) ==> runePosition == position
 //@   loop 1 decreases len(body) - position
+
+// ---- token dispatch -----------------------------------------------------------
+
+//@ spec func punctKind(c int) int {
+//@     if c == '!' { return BANG }
+//@     if c == '$' { return DOLLAR }
+//@     if c == '&' { return AMP }
+//@     if c == '(' { return PAREN_L }
+//@     if c == ')' { return PAREN_R }
+//@     if c == ':' { return COLON }
+//@     if c == '=' { return EQUALS }
+//@     if c == '@' { return AT }
+//@     if c == '[' { return BRACKET_L }
+//@     if c == ']' { return BRACKET_R }
+//@     if c == '{' { return BRACE_L }
+//@     if c == '|' { return PIPE }
+//@     if c == '}' { return BRACE_R }
+//@     return 0
+//@ }
+//@ spec func tokStart(body []byte, from int) int { return ignoredEnd(body, from) }
+//@ spec func tokCode(body []byte, from int) int { return runeAt_code(body, ignoredEnd(body, from)) }
+//@ spec func isNumberStart(c int) bool { return c == '-' || ('0' <= c && c <= '9') }
+//@ spec func isSpreadAt(body []byte, p int) bool { return runeAt_code(body, p) == '.' && runeAt_code(body, p+1) == '.' && runeAt_code(body, p+2) == '.' }
+//@ spec func isBlockQuoteAt(body []byte, p int) bool { return runeAt_code(body, p) == '"' && runeAt_code(body, p+1) == '"' && runeAt_code(body, p+2) == '"' }
+//@ spec func startsNoToken(c int) bool { return punctKind(c) == 0 && c != '.' && !isNameStart(c) && !isNumberStart(c) && c != '"' }
+
+//@ func readToken
+//@   props C03 C09 C18
+//@   opt split=4
+//@   requires s != nil && 0 <= fromPosition
+//@   assigns nothing
+//@   nopanic
+//@   ensures tokStart(s.Body, fromPosition) >= len(s.Body) ==> result1 == nil && result0.Kind == EOF && result0.Start == tokStart(s.Body, fromPosition) && result0.End == result0.Start
+//@   ensures tokStart(s.Body, fromPosition) < len(s.Body) && punctKind(tokCode(s.Body, fromPosition)) != 0 ==> result1 == nil && result0.Kind == punctKind(tokCode(s.Body, fromPosition)) && result0.Start == tokStart(s.Body, fromPosition) && result0.End == result0.Start + 1
+//@   ensures tokStart(s.Body, fromPosition) < len(s.Body) && isSpreadAt(s.Body, tokStart(s.Body, fromPosition)) ==> result1 == nil && result0.Kind == SPREAD && result0.Start == tokStart(s.Body, fromPosition) && result0.End == result0.Start + 3
+//@   ensures tokStart(s.Body, fromPosition) < len(s.Body) && tokCode(s.Body, fromPosition) == '.' && !isSpreadAt(s.Body, tokStart(s.Body, fromPosition)) ==> result1 != nil
+//@   ensures tokStart(s.Body, fromPosition) < len(s.Body) && isNameStart(tokCode(s.Body, fromPosition)) ==> result1 == nil && result0.Kind == NAME && result0.End - result0.Start == nameEnd(s.Body, tokStart(s.Body, fromPosition) + 1) - tokStart(s.Body, fromPosition)
+//@   ensures tokStart(s.Body, fromPosition) < len(s.Body) && isNameStart(tokCode(s.Body, fromPosition)) ==> result0.Value == string(s.Body[tokStart(s.Body, fromPosition):nameEnd(s.Body, tokStart(s.Body, fromPosition) + 1)])
+//@   ensures tokStart(s.Body, fromPosition) < len(s.Body) && isNameStart(tokCode(s.Body, fromPosition)) ==> result0.Start == tokStart(s.Body, fromPosition)
+//@   ensures tokStart(s.Body, fromPosition) < len(s.Body) && isNumberStart(tokCode(s.Body, fromPosition)) && numberEnd(s.Body, tokStart(s.Body, fromPosition)) >= 0 ==> result1 == nil && result0.Start == tokStart(s.Body, fromPosition) && result0.End == numberEnd(s.Body, tokStart(s.Body, fromPosition)) && (result0.Kind == INT || result0.Kind == FLOAT) && (result0.Kind == FLOAT <==> numberIsFloat(s.Body, tokStart(s.Body, fromPosition)))
+//@   ensures tokStart(s.Body, fromPosition) < len(s.Body) && isNumberStart(tokCode(s.Body, fromPosition)) && numberEnd(s.Body, tokStart(s.Body, fromPosition)) < 0 ==> result1 != nil
+//@   ensures tokStart(s.Body, fromPosition) < len(s.Body) && tokCode(s.Body, fromPosition) == '"' && !isBlockQuoteAt(s.Body, tokStart(s.Body, fromPosition)) && strScan(s.Body, tokStart(s.Body, fromPosition) + 1) >= 0 ==> result1 == nil && result0.Kind == STRING && result0.Start == tokStart(s.Body, fromPosition) && result0.End == strScan(s.Body, tokStart(s.Body, fromPosition) + 1) + 1
+//@   ensures tokStart(s.Body, fromPosition) < len(s.Body) && tokCode(s.Body, fromPosition) == '"' && !isBlockQuoteAt(s.Body, tokStart(s.Body, fromPosition)) && strScan(s.Body, tokStart(s.Body, fromPosition) + 1) < 0 ==> result1 != nil
+//@   ensures tokStart(s.Body, fromPosition) < len(s.Body) && isBlockQuoteAt(s.Body, tokStart(s.Body, fromPosition)) && blockScan(s.Body, tokStart(s.Body, fromPosition) + 3) >= 0 ==> result1 == nil && result0.Kind == BLOCK_STRING && result0.Start == tokStart(s.Body, fromPosition) && result0.End == blockScan(s.Body, tokStart(s.Body, fromPosition) + 3) + 3
+//@   ensures tokStart(s.Body, fromPosition) < len(s.Body) && isBlockQuoteAt(s.Body, tokStart(s.Body, fromPosition)) && blockScan(s.Body, tokStart(s.Body, fromPosition) + 3) < 0 ==> result1 != nil
+//@   ensures tokStart(s.Body, fromPosition) < len(s.Body) && startsNoToken(tokCode(s.Body, fromPosition)) ==> result1 != nil
+//@   at call NewSyntaxError: assert arg1 == tokStart(s.Body, fromPosition)
